@@ -7,7 +7,7 @@ rewritten after T").  Generator + runner + direct oracle (ledger + per-connectio
 import os
 from base64 import encodebytes
 
-from c13_lib import Env, p64, u64, errname
+from c13_lib import Env, p64, u64, errname, copy_to_fresh
 from c13_st import gen_data, decode_data
 
 SLOTS = ['b0', 'b1', 'b2']
@@ -105,7 +105,8 @@ def gen_case(rng, flavor=None, size=None):
             ops.append(['pack', rng.randrange(0, 6)])
             clean = True
     ops.append(['commit', None])
-    return dict(level='db', flavor=flavor, keep_old=rng.random() < 0.4, gc=rng.random() < 0.7, ops=ops)
+    return dict(level='db', flavor=flavor, keep_old=rng.random() < 0.4, gc=rng.random() < 0.7,
+                copy=rng.random() < 0.2, ops=ops)
 
 
 def apply_mode(mode, cur, data):
@@ -170,7 +171,7 @@ def run_case(case, root):
         stats[k] = stats.get(k, 0) + 1
 
     def bad(sig, what):
-        if len(problems) < 5:
+        if len(problems) < 12 and sum(1 for s0, _ in problems if s0 == sig) < 2:
             problems.append((sig, what))
 
     with clock.scripted():
@@ -243,12 +244,17 @@ def run_case(case, root):
                 got, stray = env.scan()
                 if stray:
                     bad('C13:stray-file', 'unexpected files in the blob directory after %s: %r' % (after, stray))
-                for k, b in files.items():
+                for k, b in list(files.items()):
                     if k not in got:
                         if after == 'pack':
                             bad('C13:nonundo-pack-removes-kept-blob' if flavor == 'wrap' else
                                 'C13:pack-removes-kept-blob',
                                 'pack removed the blob file of revision %r whose record is kept' % (k,))
+                            if flavor == 'wrap':
+                                # open finding (keep-only-the-latest pack of the non-undo wrapper): take the
+                                # loss into the ledger so that it is reported once, not at every later check
+                                del files[k]
+                                gone.add(k)
                         else:
                             bad('C13:committed-blob-missing', 'blob file %r missing after %s' % (k, after))
                     elif got[k] != b:
@@ -609,6 +615,15 @@ def run_case(case, root):
                                     gone.add((o, t))
                         if env.lines and env.lines[-1].startswith('pack '):
                             packed_to[0] = max(packed_to[0], int(env.lines[-1].split()[1]))
+                        # C07's carve-out (NoResurrection): an object that was garbage at the pack time and not
+                        # written after it is dropped even if a later transaction links it again; the
+                        # reference dangles, records AND files are gone together — nothing left to read
+                        for slot, oid in list(C['linked'].items()):
+                            if hist.get(oid) and all((oid, t) in gone for t, _ in hist[oid]):
+                                cnt('pack:dropped-relinked-garbage')
+                                del C['linked'][slot]
+                                C['bytes'].pop(slot, None)
+                                objs.pop(slot, None)
                         # objects whose every revision is gone cannot be linked again
                         for slot in list(objs):
                             b = objs[slot]
@@ -628,7 +643,15 @@ def run_case(case, root):
                 except Boom:
                     raise
             tm0.abort()
+            extra = ([], [])
+            if case.get('copy'):
+                cl, cr, cp = copy_to_fresh(env, root, dict(files))
+                extra = (cl, cr)
+                for sg, w in cp:
+                    bad(sg, w)
+                cnt('copy')
         finally:
             env.close()
-    return dict(lines=['reset ' + flavor] + env.lines, real=['ok'] + env.real, problems=problems,
+    return dict(lines=['reset ' + flavor] + env.lines + extra[0], real=['ok'] + env.real + extra[1],
+                problems=problems,
                 nontrivial=nontrivial[0], stats=stats)
